@@ -67,6 +67,11 @@ def analyse(facts, tier):
         raise build.AnalysisBroken('C14: only %d exported roots in the linked module' % len(roots))
     par = ir.reach(roots)
     obls = []
+    root_ids = set(roots) if roots and not isinstance(next(iter(roots)), dict) else {r['id'] for r in roots}
+    callers_of = collections.defaultdict(set)
+    for f_ in ir.fns:
+        for cid in f_.get('callees', []):
+            callers_of[cid].add(f_['id'])
     guard_names = {g['name'] for g in ir.globals if g['name'].startswith('_ZGV')}
     n_mut = 0
     for g in ir.globals:
@@ -83,6 +88,16 @@ def analyse(facts, tier):
         escapes = collections.OrderedDict()
         for s in g.get('sites', []):
             f = ir.fns[s['fn']]
+            # a write made by a file-local helper of exported API functions (all its callers are roots of the same file) is a write
+            # of those API functions: the site keeps its identity when the statement moves into such a helper
+            cl = callers_of.get(f['id'], set())
+            if not f.get('external') and cl and all(c_ in root_ids and ir.fns[c_].get('file') == f.get('file') for c_ in cl):
+                for c_ in sorted(cl):
+                    if c_ in par:
+                        s2 = dict(s, fn=c_)
+                        if s['kind'] in WRITE_KINDS or (s['kind'].startswith('arg-extern:') and not s['kind'].startswith('arg-extern:_ZNK')):
+                            by_writer.setdefault(ir.fns[c_]['dname'], []).append(s2)
+                continue
             fname = f['name']
             if fname.startswith(('__cxx_global_var_init', '_GLOBAL__sub_I')):
                 continue
